@@ -1646,6 +1646,10 @@ def _emission(stmt) -> Optional[Tuple[str, str, ast.AST]]:
     """('+=' | 'append', accumulator name, emitted value)."""
     if isinstance(stmt, ast.AugAssign) and isinstance(stmt.op, ast.Add) and isinstance(stmt.target, ast.Name):
         return ('+=', stmt.target.id, stmt.value)
+    # `acc = acc + <piece>` (the accumulator as the left operand of the outermost `+`) is `acc += <piece>`
+    if isinstance(stmt, ast.Assign) and len(stmt.targets) == 1 and isinstance(stmt.targets[0], ast.Name) and isinstance(stmt.value, ast.BinOp) \
+            and isinstance(stmt.value.op, ast.Add) and isinstance(stmt.value.left, ast.Name) and stmt.value.left.id == stmt.targets[0].id:
+        return ('+=', stmt.targets[0].id, stmt.value.right)
     if isinstance(stmt, ast.Expr) and isinstance(stmt.value, ast.Call) and isinstance(stmt.value.func, ast.Attribute) \
             and stmt.value.func.attr == 'append' and isinstance(stmt.value.func.value, ast.Name) and len(stmt.value.args) == 1:
         return ('append', stmt.value.func.value.id, stmt.value.args[0])
